@@ -200,12 +200,29 @@ def run(ctx):
                 if hit and not _is_log_arg(n, parents):
                     reads.append((mod2, n))
         ok = not reads
+        how = "only written / logged"
+        why = ""
+        if reads and not key[0].startswith("module ") and key[1] != "<setattr>":
+            # it is read: does anything channel-visible depend on what is read?
+            # (value flow into statements / frames / registry keys, and the
+            # trace-set comparison of E5 for every decision taken on it)
+            from ..e5 import state_influence
+            viol, st = state_influence(ctx.model, key[0], key[1])
+            if not viol:
+                ok = True
+                how = ("read at %s:%d, but nothing channel-visible depends on it: no "
+                       "statement, frame or registry key carries it (%d events) and the "
+                       "projected traces agree for every decision taken on it (%d decisions, "
+                       "%d comparisons)" % (reads[0][0].path, reads[0][1].lineno,
+                                            st["events"], st["decisions"], st["groups"]))
+            else:
+                why = " (%s flow in %s: %s)" % (viol[0][0], viol[0][1], viol[0][2][:160])
         ctx.ob("R11.inv", "%s.%s is process-lifetime mutable state" % key, ok,
                "%s:%d" % (mod.path, node.lineno),
-               "only written / logged" if ok else
+               how if ok else
                "state that survives reconnects but not a restart is read at %s:%d: after "
                "a restart the server answers differently from one whose clients merely "
-               "reconnected" % (reads[0][0].path, reads[0][1].lineno))
+               "reconnected%s" % (reads[0][0].path, reads[0][1].lineno, why))
     # lazily created attributes
     for mname in MODS:
         mod = repo.modules[mname]
